@@ -19,6 +19,8 @@ inside the table and type codes the machine defines: -r incl. negative addends i
 spec/ReadelfEnvelopeE.tla (location expressions in the context of their unit - DWARF format, address size, version, byte order,
 machine - with several contexts in one .debug_info, and SEQUENCES of files dumped by one process: the clone is run in-process and
 keeps module-level state between dumps; every dump of a sequence is compared with what GNU readelf prints for that file alone).
+Round 4: spec/ReadelfEnvelopeC.tla (the CFI writer of C06 with an alphabet of BLOCKS that nests DW_CFA_remember_state /
+DW_CFA_restore_state pairs up to depth 3 - the depth of the remembered-state stack of DWARF 6.4.2.4 - for frames / frames-interp).
 GNU readelf is the oracle only where it accepts the image without complaint (exit status 0, no
 "readelf: Warning/Error", no bytes >= 0x80 in the text); every other restriction of the envelope
 is a predicate on the emitted case with a stated reason, counted in the evidence."""
@@ -170,7 +172,8 @@ def check(run):
                 'and the cross-writer sweep (a deterministic sample of the images the writers of the other properties\' specifications emit, '
                 'under the option that dumps the structure: see coverage.writers for images offered / refused by the oracle / compared per '
                 'source; sources of this property: hex / string dump sections, relocation tables rendered with named symbols, expressions in '
-                'mixed unit contexts and sequences of dumps by one process); each pair runs GNU readelf 2.40 and the clone and compares '
+                'mixed unit contexts and sequences of dumps by one process, call-frame programs with nested remember/restore_state pairs); '
+                'each pair runs GNU readelf 2.40 and the clone and compares '
                 'under the vendored tolerance rules')
     run.assumptions += ['GNU binutils readelf 2.40 is the oracle for the text; the project targets >= 2.41: pairs that differ only because of '
                         'the older oracle are excluded with the reason (ORACLE_SKEW)',
